@@ -12,6 +12,8 @@ namespace m {
 template <class T> T&& dv() noexcept;
 template <class T> struct mirror { using type = T; };
 template <class T, etl::size_t E> struct mirror<etl::span<T, E>> { using type = std::span<T, E>; };
+struct base_el { int a; };
+struct derived_el : base_el { int b; };
 template <class E, class S> inline constexpr bool same = std::is_same_v<typename mirror<std::remove_cvref_t<E>>::type, std::remove_cvref_t<S>>;
 }
 """
@@ -74,4 +76,13 @@ def generate(quick):
                        % (mp, mp, mp, mp, ex, mp, lay), "%s::mapping<%s> properties" % (lay, lab))
             tu.add("static_assert(etl::mdspan<float, %s>::rank() == %d && std::is_same_v<etl::mdspan<float, %s>::index_type, int> && std::is_same_v<etl::mdspan<float, %s>::layout_type, etl::layout_right>);"
                    % (ex, rank, ex, ex), "mdspan<float,%s> rank/index_type/default layout" % lab)
+    # [mdspan.accessor.default]: default_accessor<To> converts from default_accessor<From> exactly when From(*)[] converts to
+    # To(*)[] (a qualification conversion): a derived-to-base conversion would step through the elements with the wrong size
+    ELS = ["int", "int const", "long", "unsigned", "m::base_el", "m::base_el const", "m::derived_el", "m::derived_el const", "char", "char const"]
+    for fr in ELS:
+        for to in ELS:
+            tu.add("static_assert(std::is_constructible_v<etl::default_accessor<%s>, etl::default_accessor<%s>> == std::is_convertible_v<%s (*)[], %s (*)[]>);"
+                   % (to, fr, fr, to), "default_accessor<%s> from default_accessor<%s>" % (to, fr))
+            tu.add("static_assert(std::is_convertible_v<etl::default_accessor<%s>, etl::default_accessor<%s>> == std::is_convertible_v<%s (*)[], %s (*)[]>);"
+                   % (fr, to, fr, to), "default_accessor<%s> converts to default_accessor<%s>" % (fr, to))
     return [tu, fails], {}
